@@ -124,12 +124,37 @@ def without_blank_after_empty_items(m):
     return '\n'.join(out)
 
 
+def differs_only_by_blank_after_empty_items(m, out):
+    """is `out` the input with some (at least one) of the blank lines that directly follow a marker-only line removed, and
+    nothing else changed? (the recorded defect loses such a blank line in most positions, not in all)"""
+    a, b = m.split('\n'), out.split('\n')
+    cand = set()
+    blank = None
+    for i, line in enumerate(a):
+        if blank is not None and line.replace(' ', '') == blank and i < len(a) - 1:
+            cand.add(i)
+            continue
+        mm = EMPTY_MARKER_LINE.match(line)
+        blank = '>' * mm.group(1).count('>') if mm else None
+    i = j = removed = 0
+    while i < len(a):
+        if j < len(b) and a[i] == b[j]:
+            i += 1
+            j += 1
+        elif i in cand:
+            i += 1
+            removed += 1
+        else:
+            return False
+    return j == len(b) and removed > 0
+
+
 def classify_tree(blocks, o, clause, md=None, exact=False, nw=False):
     if clause in ('meaning-changed', 'not-idempotent', 'normal-form-not-reproduced') and has_empty_item_then_more(blocks):
         if exact and md is not None:
-            # canonical input: attribute only if the rendering differs from the input by exactly the lost blank lines
+            # canonical input: attribute only if the rendering differs from the input by nothing but lost blank lines after empty items
             try:
-                if md_of(md, nw) != without_blank_after_empty_items(md):
+                if not differs_only_by_blank_after_empty_items(md, md_of(md, nw)):
                     return None
             except Exception:
                 return None
